@@ -682,6 +682,66 @@ def _t_loop_spellings(srcs):
         R().visit(tree)
 
 
+def _t_import_styles(srcs):
+    """the other way of importing each non-numpy module: `import pkg.mod as m` -> `from pkg import mod as m`; `from mod import f` -> `import mod as _m_mod`
+    with `f` -> `_m_mod.f`; `import mod` (top-level module) -> `from mod import a as _mod_a, ...` with `mod.a` -> `_mod_a`"""
+    import ast
+    for pth, tree in srcs.items():
+        if pth.endswith("__init__.py") or pth.endswith("plot.py"):
+            continue
+        from_names, mod_names = {}, {}
+        new_body = []
+        for n in tree.body:
+            if isinstance(n, ast.Import) and len(n.names) == 1 and n.names[0].name != "numpy":
+                al = n.names[0]
+                if "." in al.name and al.asname:
+                    pkg, mod = al.name.rsplit(".", 1)
+                    new_body.append(ast.copy_location(ast.ImportFrom(module=pkg, names=[ast.alias(name=mod, asname=al.asname if al.asname != mod else None)], level=0), n))
+                    continue
+                if "." not in al.name and not al.asname and al.name in ("itertools", "copy", "warnings"):
+                    mod_names[al.name] = n
+                    new_body.append(n)
+                    continue
+            if isinstance(n, ast.ImportFrom) and n.level == 0 and n.module and len(n.names) >= 1 and all(a.name != "*" for a in n.names) and n.module != "numpy":
+                alias = "_m_" + n.module.replace(".", "_")
+                for a in n.names:
+                    from_names[a.asname or a.name] = (alias, a.name)
+                new_body.append(ast.copy_location(ast.Import(names=[ast.alias(name=n.module, asname=alias)]), n))
+                continue
+            new_body.append(n)
+        tree.body = new_body
+        used = {}
+
+        class R(ast.NodeTransformer):
+            def visit_Name(self, node):
+                if isinstance(node.ctx, ast.Load) and node.id in from_names:
+                    al, nm = from_names[node.id]
+                    return ast.copy_location(ast.Attribute(value=ast.Name(al, ast.Load()), attr=nm, ctx=ast.Load()), node)
+                return node
+
+            def visit_Attribute(self, node):
+                if isinstance(node.value, ast.Name) and node.value.id in mod_names and isinstance(node.ctx, ast.Load):
+                    nm = "_%s_%s" % (node.value.id, node.attr)
+                    used.setdefault(node.value.id, {})[node.attr] = nm
+                    return ast.copy_location(ast.Name(nm, ast.Load()), node)
+                self.generic_visit(node)
+                return node
+        # names imported with `from` must not be rebound anywhere in the module for the rewrite to be meaning-preserving
+        bound = {x.id for x in ast.walk(tree) if isinstance(x, ast.Name) and isinstance(x.ctx, ast.Store)} | {a.arg for x in ast.walk(tree) if isinstance(x, ast.arguments)
+                                                                                                            for a in x.args + x.kwonlyargs + x.posonlyargs}
+        for k in list(from_names):
+            if k in bound:
+                raise RuntimeError("import_styles: %s rebound" % k)
+        for k in list(mod_names):
+            if k in bound:
+                del mod_names[k]
+        R().visit(tree)
+        for i, n in enumerate(tree.body):
+            if isinstance(n, ast.Import) and len(n.names) == 1 and n.names[0].name in used and not n.names[0].asname:
+                m = n.names[0].name
+                tree.body[i] = ast.copy_location(ast.ImportFrom(module=m, names=[ast.alias(name=a, asname=nm) for a, nm in sorted(used[m].items())], level=0), n)
+
+
 def _t_np_operators(srcs):
     """operators spelled as numpy functions where that is the same for every operand the code can see: a @ b -> np.matmul(a, b), np.eye(n) -> np.identity(n)"""
     import ast
@@ -965,7 +1025,7 @@ def _t_accept_lists(srcs):
                         n.body[k:k] = ast.parse("if not isinstance(%s, np.ndarray):\n    %s = np.array(%s)\n" % (a.arg, a.arg, a.arg)).body
 
 
-TREE_TRANSFORMS = {"@coerce_params": _t_coerce_params, "@accept_lists": _t_accept_lists, "@early_exit": _t_early_exit, "@numpy_alias": _t_numpy_alias, "@kwargs_calls": _t_kwargs_calls, "@strip_docs_annotate": _t_strip_docs_annotate, "@logging": _t_logging, "@traced": _t_traced, "@kwonly": _t_kwonly, "@extra_param": _t_extra_param, "@try_reraise": _t_try_reraise, "@np_functions": _t_np_functions, "@small_idioms": _t_small_idioms, "@flip_comparisons": _t_flip_comparisons, "@else_after_exit": _t_else_after_exit, "@comp_to_loop": _t_comp_to_loop, "@logic_spellings": _t_logic_spellings, "@local_aliases": _t_local_aliases, "@method_spellings": _t_method_spellings, "@statement_spellings": _t_statement_spellings, "@loop_spellings": _t_loop_spellings, "@np_operators": _t_np_operators, "@private_module": _t_private_module, "@swap_branches": _t_swap_branches, "@name_conditions": _t_name_conditions, "@ternary_to_if": _t_ternary_to_if,
+TREE_TRANSFORMS = {"@coerce_params": _t_coerce_params, "@accept_lists": _t_accept_lists, "@early_exit": _t_early_exit, "@numpy_alias": _t_numpy_alias, "@kwargs_calls": _t_kwargs_calls, "@strip_docs_annotate": _t_strip_docs_annotate, "@logging": _t_logging, "@traced": _t_traced, "@kwonly": _t_kwonly, "@extra_param": _t_extra_param, "@try_reraise": _t_try_reraise, "@np_functions": _t_np_functions, "@small_idioms": _t_small_idioms, "@flip_comparisons": _t_flip_comparisons, "@else_after_exit": _t_else_after_exit, "@comp_to_loop": _t_comp_to_loop, "@logic_spellings": _t_logic_spellings, "@local_aliases": _t_local_aliases, "@method_spellings": _t_method_spellings, "@statement_spellings": _t_statement_spellings, "@loop_spellings": _t_loop_spellings, "@import_styles": _t_import_styles, "@np_operators": _t_np_operators, "@private_module": _t_private_module, "@swap_branches": _t_swap_branches, "@name_conditions": _t_name_conditions, "@ternary_to_if": _t_ternary_to_if,
                    "@shim": _t_shim}
 
 
